@@ -439,6 +439,77 @@ impl Recorder {
     }
 }
 
+impl Recorder {
+    /// C07 "the auto-correct entry for the typed word (USER entry before bundled entry) is first": contexts over a user
+    /// auto-correct file with (a) entries for keys the bundled list has too and (b) pairs base / base + suffix where the base has
+    /// many dictionary hits and the suffixed word few of its own - the list of the suffixed word then starts with its own entry,
+    /// followed by few own hits and MANY suffix-built words, the first of which is built from the base's entry (equal rank: only
+    /// the order of assembly decides).  Emitted as plist events of the candidate trace.
+    pub fn driver_cands_userac(&mut self, shard: usize, shards: usize) {
+        let bases = ["kor", "bol", "por", "mon", "din", "tar", "jon", "kotha", "sesh", "bangla", "sor", "kal"];
+        let sfxs = ["ta", "e", "er", "gulo", "o", "i", "te", "ke", "ra", "der", "tai", "mala"];
+        let vals = ["amra", "tumi", "kkhoma", "bondhu", "prithibi", "shanti"];
+        let mut user_ac: std::collections::HashMap<String, String> = std::collections::HashMap::new();
+        let mut texts: Vec<String> = Vec::new();
+        for (i, b) in bases.iter().enumerate() {
+            user_ac.insert(b.to_string(), vals[i % vals.len()].to_string());
+            texts.push(b.to_string());
+            for (j, sx) in sfxs.iter().enumerate() {
+                if !self.or.suffix.contains_key(*sx) {
+                    continue;
+                }
+                let w = format!("{}{}", b, sx);
+                if (i + j) % 2 == 0 {
+                    user_ac.insert(w.clone(), vals[(i + j + 1) % vals.len()].to_string());
+                }
+                texts.push(w);
+            }
+        }
+        // keys the bundled list has too: the user's entry wins
+        let mut sys: Vec<&String> = self.or.autocorrect.keys().filter(|k| k.chars().all(|c| c.is_ascii_lowercase()) && k.len() >= 2).collect();
+        sys.sort();
+        for k in sys.iter().step_by(97).take(12) {
+            user_ac.insert((*k).clone(), "shobuj".to_string());
+            texts.push((*k).clone());
+        }
+        clean_home(&self.home);
+        let acp = self.home.join("openbangla-keyboard/autocorrect.json");
+        std::fs::write(&acp, serde_json::to_vec(&user_ac).unwrap()).unwrap();
+        let cfgs = vec![
+            Cfg { layout: "phonetic".into(), psug: true, english: true, smart: false, db: true, ..Default::default() },
+            Cfg { layout: "phonetic".into(), psug: true, english: false, smart: true, db: true, ..Default::default() },
+        ];
+        let mut cache = std::collections::HashMap::new();
+        self.emit(json!({"ev": "reset"}));
+        for (n, t) in texts.iter().enumerate() {
+            if n % shards.max(1) != shard % shards.max(1) {
+                continue;
+            }
+            let cfg = &cfgs[(n / shards.max(1)) % 2];
+            // a context of its own per text: the bases are typed first (key by key, as a user reaches the word), then the text
+            let mut ctx = match Ctx::new(cfg, &self.home) { Ok(c) => c, Err(_) => continue };
+            let mut offered: std::collections::HashMap<String, Vec<String>> = std::collections::HashMap::new();
+            for base in self.bases_of(t) {
+                let ob = self.type_text(&mut ctx, &base);
+                if ob.kind == "full" {
+                    offered.insert(base.clone(), ob.cands.clone());
+                }
+                if ob.kind != "panic" {
+                    ctx.finish();
+                }
+            }
+            let o = self.type_text(&mut ctx, t);
+            if o.kind == "panic" {
+                self.emit(json!({"ev": "panic", "typed": chars(t), "what": o.panic.clone().unwrap_or_default()}));
+                continue;
+            }
+            let e = self.plist_event(t, cfg, &o, &user_ac, &mut cache, &offered);
+            self.emit(e);
+        }
+        let _ = std::fs::remove_file(&acp);
+    }
+}
+
 /// A plain inverse of the Avro table (one spelling per word; None when the word holds a character the table lacks).  The
 /// result is only ever used after the okkhor pattern of the spelling was checked against the word.
 pub fn romanise(word: &str) -> Option<String> {
